@@ -206,7 +206,10 @@ func columnsLayout(context *layoutContext, box_ bo.BlockBoxITF, bottomSpace pr.F
 		stopRendering, balancing := false, false
 		for {
 			// Remove extra excluded shapes introduced during the previous loop
-			*context.excludedShapes = (*context.excludedShapes)[:len(originalExcludedShapes)]
+			// (the list may also be shorter: a new block formatting context started since)
+			if n := len(originalExcludedShapes); n < len(*context.excludedShapes) {
+				*context.excludedShapes = (*context.excludedShapes)[:n]
+			}
 
 			// Render the columns
 			columnSkipStack = skipStack
